@@ -96,10 +96,10 @@ REG["C10"] = dict(
 )
 
 REG["C09"] = dict(
-    harnesses=[H(P, "VerifH_C09_merge2"), H(P, "VerifH_C09_mergeK"), H(P, "VerifH_C09_mergeRuns"), H(P, "VerifH_C09_runLength"), H(P, "VerifH_C09_dedupe")],
-    explanation="MergeRowReaders on model row readers that serve sorted inputs with symbolic int64 keys (sortedness is the only assumption) in chosen chunkings, drained with chosen batch sizes: for every key assignment the merged output is sorted, has exactly the rows of the inputs, and keeps each input's rows in their original relative order (rows carry concrete (input, position) tags the comparator ignores). Covers the 2-way reader (mergedRowReader2 incl. the galloping run emission after a streak) and the k-way tournament tree (mergedRowReader, 3..4 inputs incl. empty ones), runLength against a linear scan for both tie modes, and DedupeRowReader (first row of every run of equal keys, order kept, across batch boundaries).",
-    bounds={"quick": "2-way: inputs of <=3 rows, 1-row or unbounded source chunks, batch 1..3; k-way: 3 inputs of <=2 rows, batch 2/4; runs: 6+2 rows, batch 3..8; runLength: window <=6; dedupe: <=4 rows, chunks 0..2, batch 1..3", "thorough": "2-way second input <=4 rows; k-way 4 inputs; dedupe <=5 rows"},
-    outside=["row-group level planning: overlappingRowGroups, range refinement (merge_refine.go), rowGroupRangeOfSortedColumns (DESIGN K5/K6 not built yet)", "merges over real files and WriteRowGroup(merged)", "multi-column and nullable keys, descending order"],
+    harnesses=[H(P, "VerifH_C09_merge2"), H(P, "VerifH_C09_mergeK"), H(P, "VerifH_C09_mergeRuns"), H(P, "VerifH_C09_runLength"), H(P, "VerifH_C09_dedupe"), H(P, "VerifH_C09_disjointSegments")],
+    explanation="MergeRowReaders on model row readers that serve sorted inputs with symbolic int64 keys (sortedness is the only assumption) in chosen chunkings, drained with chosen batch sizes: for every key assignment the merged output is sorted, has exactly the rows of the inputs, and keeps each input's rows in their original relative order (rows carry concrete (input, position) tags the comparator ignores). Covers the 2-way reader (mergedRowReader2 incl. the galloping run emission after a streak) and the k-way tournament tree (mergedRowReader, 3..4 inputs incl. empty ones), runLength against a linear scan for both tie modes, and DedupeRowReader (first row of every run of equal keys, order kept, across batch boundaries). (K5) overlappingRowGroups with rowGroupRangeOfSortedColumns over model row groups (symbolic first/last rows, symbolic valid page bounds, two sorting columns with every direction combination, the real Schema.Comparator): every row group lands in exactly one segment, and row groups in different segments are really ordered (last row of the earlier <= first row of the later), so concatenating segments keeps the output sorted.",
+    bounds={"quick": "2-way: inputs of <=3 rows, 1-row or unbounded source chunks, batch 1..3; k-way: 3 inputs of <=2 rows, batch 2/4; runs: 6+2 rows, batch 3..8; runLength: window <=6; dedupe: <=4 rows, chunks 0..2, batch 1..3; segments: 2 row groups, keys (a,b) of 8-bit range, 4 direction combinations", "thorough": "2-way second input <=4 rows; k-way 4 inputs; dedupe <=5 rows"},
+    outside=["range refinement inside a segment (merge_refine.go, DESIGN K6 not built yet)", "merges over real files and WriteRowGroup(merged)", "multi-column and nullable keys, descending order"],
 )
 
 REG["C08"] = dict(
